@@ -52,3 +52,30 @@ if a in s:
     open(p, "w").write(s)
 n_first = sum(1 for r in rows if "| caught |" in r.split("|", 3)[2:3][0] + "|" or r.split("|")[2].strip() == "caught")
 print(f"seeded: {len(rows)}; caught at first run: {sum(1 for r in rows if r.split('|')[2].strip()=='caught')}; caught now: {sum(1 for r in rows if r.split('|')[3].strip().startswith('caught'))}")
+
+# ---- §7.3: every `fix:` commit of /repo with the property whose check found it (KNOWN_FINDINGS fixed entries)
+import subprocess
+fixed = {}
+for l in open(f"{V}/KNOWN_FINDINGS.jsonl"):
+    l = l.strip()
+    if not l or l.startswith("#"):
+        continue
+    d = json.loads(l)
+    if d.get("fixed"):
+        for c in re.split(r"[ ,+]+", d.get("commit", "")):
+            if c:
+                fixed.setdefault(c[:7], []).append(d)
+log = subprocess.check_output(["git", "-C", os.environ.get("VERIF_REPO", "/repo"), "log", "--reverse", "--format=%h\t%s", "--grep=^fix:"], text=True)
+rows73 = []
+for line in log.splitlines():
+    h, subj = line.split("\t", 1)
+    ents = fixed.get(h[:7], [])
+    props = ", ".join(sorted({e["property"] for e in ents})) or "—"
+    rows73.append(f"| {h[:7]} | {props} | {subj[5:].replace('|', '/')} |")
+t73 = "| commit | found by the check of | subject of the fix commit (details: `KNOWN_FINDINGS.jsonl`, entries with `fixed`) |\n|---|---|---|\n" + "\n".join(rows73)
+s = open(p).read()
+a = "<!-- TABLE73:BEGIN -->"; b = "<!-- TABLE73:END -->"
+if a in s:
+    s = s[:s.index(a) + len(a)] + "\n" + t73 + "\n" + s[s.index(b):]
+    open(p, "w").write(s)
+print(f"fix commits: {len(rows73)}; without a KNOWN_FINDINGS entry: {[r.split('|')[1].strip() for r in rows73 if '| — |' in r]}")
